@@ -515,7 +515,14 @@ def c05(obs):
     return v
 
 
-def attribution_table(o):
+def verbatim_root(tree):
+    """map() of this tree is the map GIVEN to a SourceMapSource, handed back as it is"""
+    t = tree
+    while isinstance(t, dict) and t.get('kind') in ('boxed', 'cached'): t = t['inner']
+    return isinstance(t, dict) and t.get('kind') == 'sms' and t.get('inner_map') is None
+
+
+def attribution_table(o, verbatim=False):
     """per character attribution through map c1 (names resolved), per line through map c0, and through the streams"""
     src = o['source']; pos, end = positions(src)
     out = {}
@@ -526,7 +533,19 @@ def attribution_table(o):
         # (file, line) of every character position resolved the ordinary way (greatest segment at or before it); for a
         # well-formed lines-only map (one segment per line at column 0) this is the line's first mapped segment
         def fl(a): return None if a is None else (a[0], a[1])
-        out['map0'] = [fl(lookup(ms, l, c)) for (l, c) in pos]
+        if verbatim:
+            # a bare SourceMapSource hands back its GIVEN map verbatim for columns=false, and that map need not start lines at
+            # column 0: such a map is resolved as C03 states it - every position of a line carries the (file, line) of the
+            # line's first mapped segment
+            def first_mapped(l):
+                a = next((x[2] for x in ms if x[0] == l and x[2] is not None), None)
+                return None if a is None else (a[0], a[1])
+            cache = {}
+            out['map0'] = [cache.setdefault(l, first_mapped(l)) for (l, c) in pos]
+        else:
+            # (file, line) of every position resolved the ordinary way (greatest segment at or before it); for the lines-only
+            # maps the crate's encoders produce (one segment per line at column 0) this is the line's first mapped segment
+            out['map0'] = [fl(lookup(ms, l, c)) for (l, c) in pos]
     if 'c1f0' in o['streams']:
         st = stream_attr(o['streams']['c1f0']); out['stream1'] = [lookup(st, l, c) for (l, c) in pos]
     return out
@@ -538,7 +557,8 @@ def c13(obs, prop='C13'):
     v = []
     if alt.get('source') != obs.get('source'):
         return [(prop, 'text differs from the equivalent composition: %r vs %r (%s)' % (obs.get('source'), alt.get('source'), obs.get('alt_kind')))]
-    a, b = attribution_table(obs), attribution_table(alt)
+    vb = verbatim_root(obs.get('tree')) or verbatim_root(alt.get('tree')) or alt.get('tree') is None and find_sms(obs.get('tree') or {'kind': '?'}) is not None
+    a, b = attribution_table(obs, vb), attribution_table(alt, vb)
     for k in a:
         if k in b and a[k] != b[k]:
             i = next(i for i, (x, y) in enumerate(zip(a[k], b[k])) if x != y)
@@ -678,6 +698,7 @@ def c09(obs):
     orig_text = tree.get('original_source')
     if orig_text is None:
         srcs = Mo.get('sources', [])
+        srcs = [with_root(Mo.get('sourceRoot'), n) for n in srcs]
         if inner_name in srcs and srcs.index(inner_name) < len(Mo.get('sourcesContent') or []): orig_text = Mo['sourcesContent'][srcs.index(inner_name)]
     olines = split_lines(orig_text) if orig_text is not None else None
     inner_contents = {with_root(Mi.get('sourceRoot'), n): ((Mi.get('sourcesContent') or [])[i] if i < len(Mi.get('sourcesContent') or []) else None) for i, n in enumerate(Mi.get('sources', []))}
@@ -692,7 +713,9 @@ def c09(obs):
             if o is None:
                 if got is not None: v.append(('C09', '%s: chunk at (%d,%d) is mapped to %r although the outer map leaves it unmapped' % (k, l, c, got)))
                 continue
-            if o[0] != with_root(Mo.get('sourceRoot'), inner_name) and o[0] != inner_name:
+            # "points into the named inner source": the outer file name WITH the outer sourceRoot applied equals the name given
+            # to the SourceMapSource (as in webpack-sources; a caller using a sourceRoot passes the rooted name)
+            if o[0] != inner_name:
                 if got != o: v.append(('C09', '%s: chunk at (%d,%d): an outer segment into another source %r must pass through unchanged, got %r' % (k, l, c, o, got)))
                 continue
             # into the inner source at (o[1], o[2])
@@ -723,7 +746,7 @@ def c09(obs):
             if name not in used: continue
             if name in inner_contents and name != inner_name:
                 want = inner_contents[name]
-            elif name == inner_name or name == with_root(Mo.get('sourceRoot'), inner_name):
+            elif name == inner_name:
                 want = orig_text
             else:
                 want = outer_contents.get(name)
